@@ -21,7 +21,7 @@ AdapterCases ==
   \cup {[part |-> "adapter", fn |-> "MakeVariadicParam", n |-> n, bound |-> <<>>, args |-> SubSeq(Supp, 1, n + k)] : n \in 1..6, k \in 0..1}
   \cup {[part |-> "adapter", fn |-> "MakeVariadicReturn", n |-> n, bound |-> <<>>, args |-> SubSeq(Supp, 1, k)] : n \in 1..6, k \in {0, 6}}
   \cup {[part |-> "adapter", fn |-> "MakeNumericReturnBool", n |-> n, bound |-> <<>>, args |-> <<v>>] : n \in {0, 1}, v \in 1..3}
-TrampCases == {[part |-> "trampoline", x |-> <<n, 0>>, errAt |-> k] : n \in 0..4, k \in 0..6}
+TrampCases == {[part |-> "trampoline", x |-> <<n, 0>>, errAt |-> k, errDone |-> d] : n \in 0..4, k \in 0..6, d \in BOOLEAN}
 
 ScriptOps == {[op |-> "Call", args |-> <<1>>], [op |-> "Call", args |-> <<2, 3>>], [op |-> "Call", args |-> <<>>],
               [op |-> "MarkDone", args |-> <<>>], [op |-> "Result", args |-> <<>>]}
@@ -41,7 +41,8 @@ Probes == {
   D("strCcc", "string", FALSE, "ccc", 4), D("nilU", "invalid", TRUE, "-", 5), D("nilPtr", "ptr", TRUE, "-", 6),
   D("structS", "struct", FALSE, "-", 7), PtrTo("ptrS", D("structS", "struct", FALSE, "-", 7)),
   D("slice", "slice", FALSE, "-", 0), D("float", "float64", FALSE, "-", 9), D("boolT", "bool", FALSE, "-", 10),
-  D("ptrInt", "ptr", FALSE, "-", 0),
+  D("ptrInt", "ptr", FALSE, "-", 12), D("structP", "struct", FALSE, "-", 13),   \* equality is ==: a pointer equals only itself (12), a struct with a pointer field
+                                                                                 \* only one holding the same pointer (13); look-alikes with equal pointees are 11 / 14
   PtrTo("compA1", CompVal("compA1v", <<O("int", FALSE), O("string", FALSE)>>)),
   PtrTo("compA2", CompVal("compA2v", <<O("string", FALSE)>>)),
   PtrTo("compNil", CompVal("compNilv", <<O("invalid", TRUE)>>)),
@@ -53,6 +54,7 @@ BasePats == {Pat("kind", "int", 0, "-", NoTy), Pat("equal", "-", 3, "-", NoTy), 
              Pat("sum", "-", 0, "-", TypeA), Pat("otherwise", "-", 0, "-", NoTy)}
 AltPats == {Pat("kind", "string", 0, "-", NoTy), Pat("kind", "struct", 0, "-", NoTy), Pat("kind", "ptr", 0, "-", NoTy),
             Pat("equal", "-", 1, "-", NoTy), Pat("equal", "-", 7, "-", NoTy), Pat("equal", "-", 5, "-", NoTy), Pat("equal", "-", 6, "-", NoTy),
+            Pat("equal", "-", 11, "-", NoTy), Pat("equal", "-", 12, "-", NoTy), Pat("equal", "-", 13, "-", NoTy), Pat("equal", "-", 14, "-", NoTy),
             Pat("regex", "-", 0, "hdoto", NoTy), Pat("regex", "-", 0, "invalid", NoTy), Pat("regex", "-", 0, "any", NoTy),
             Pat("sum", "-", 0, "-", TypeS)}
 \* all permutations of all non-empty subsets of the five base kinds, plus every single alternative pattern in front of Otherwise / alone
